@@ -387,6 +387,38 @@ func runCheck(id, tier string) int {
 			sampleOut = append(sampleOut, map[string]any{"job": j.Name, "model": readableModel(s.Model), "notes": s.Notes, "observed": s.Observed})
 		}
 	}
+	// --- contract validation of stubs against the real libraries (concrete, native-only entries) ---
+	for _, entry := range c.NativeContracts {
+		cj := Job{Name: entry, Pkg: "gtree", Entry: entry}
+		out := rp.run(&cj, map[string]string{})
+		replays++
+		if out.Err != "" {
+			fmt.Printf("MACHINERY-FAILURE property=%s contract validation %s could not run: %s\n", id, entry, firstLines(out.Err, 2))
+			machinery = true
+			continue
+		}
+		var failed []string
+		failed = append(failed, out.Failed...)
+		if out.Panic != "" || out.Crash != "" || out.Timeout {
+			failed = append(failed, "panic@"+entry)
+		}
+		seenF := map[string]bool{}
+		for _, aid := range failed {
+			if seenF[aid] {
+				continue
+			}
+			seenF[aid] = true
+			if k := isKnown(aid); k != nil {
+				knownSeen[aid] = true
+				continue
+			}
+			p := writeCex(&cj, aid, map[string]string{})
+			violLines = append(violLines, fmt.Sprintf("VIOLATION property=%s replay=%s", id, p))
+			fmt.Printf("  contract validation %s: the real build fails %s: %s\n", entry, aid, out.summary())
+			nViol++
+			exit = 1
+		}
+	}
 	var kids []string
 	for aid := range knownSeen {
 		kids = append(kids, aid)
